@@ -22,6 +22,32 @@ def cases(draw):
             t.setdefault('acts', {}).setdefault('body', []).append(['probe'])
     opts = {'buffer': draw(st.sampled_from([True, True, True, False])), 'verbose': draw(st.integers(0, 3)),
             'repeat': draw(st.sampled_from([1, 1, 2])), 'shuffle': draw(st.one_of(st.none(), st.integers(0, 99)))}
+    # (the XML wrapper sits between the result object and the formatter: captured output must pass through it)
+    opts['xml'] = draw(st.sampled_from([False, False, False, True]))
+    if opts['buffer']:
+        # test fixtures that handle the std streams themselves: "save in setUp, install a private stream, put the saved
+        # one back in tearDown" (what the test then writes in between is its own business: no tokens there), or a test
+        # that rebinds a stream and never puts it back.  With --buffer the runner still owes the original objects
+        # between tests and after the run.
+        for _, t in gen.iter_tests(spec):
+            r = draw(st.integers(0, 11))
+            if r > 1:
+                continue
+            acts = t.setdefault('acts', {})
+            for ph in ('body', 'tearDown') if r == 0 else ('tearDown',):
+                for a in acts.get(ph) or ():
+                    if a[0] == 'out':
+                        for tok in re.findall(r'Tk\d+q', a[2]):
+                            tokens.pop(tok, None)
+            if r == 0:
+                acts['body'] = [a for a in acts.get('body') or () if a[0] != 'out']
+                acts['tearDown'] = [['swap', 'restore']] + [a for a in acts.get('tearDown') or () if a[0] != 'out']
+                acts.setdefault('setUp', []).append(['swap', 'save'])
+                t['fixture'] = 'save-restore'
+            else:
+                acts['tearDown'] = [a for a in acts.get('tearDown') or () if a[0] != 'out']
+                acts.setdefault('body', []).append(['swap', 'leak', draw(st.sampled_from(['o', 'e', 'oe']))])
+                t['fixture'] = 'leak'
     return {'spec': spec, 'opts': opts, 'tokens': tokens}
 
 
@@ -128,8 +154,23 @@ class InProc(Part):
 
     def execute(self, case):
         spec = common.with_prefix(case['spec'])
-        run = drive.run_inproc(spec, common.args_of(case['opts']))
+        opts = dict(case['opts'])
+        xml_dir = None
+        if opts.get('xml'):
+            import tempfile
+            xml_dir = tempfile.mkdtemp(prefix='ztv-c13-xml-', dir=drive.tmp_root())
+            opts['xml'] = xml_dir
+        else:
+            opts.pop('xml', None)
+        try:
+            run = drive.run_inproc(spec, common.args_of(opts))
+        finally:
+            if xml_dir:
+                import shutil
+                shutil.rmtree(xml_dir, ignore_errors=True)
         viol, labels = oracle(spec, case['opts'], case['tokens'], run)
+        if xml_dir:
+            labels.append('xml')
         # non-trivial: a failing test with output adjacent (in spec order) to a passing test with output,
         # or a test with output that has >= 2 result events
         adj = False
@@ -147,6 +188,9 @@ class InProc(Part):
             labels.append('multi-event-with-output')
         if case['opts'].get('buffer'):
             labels.append('buffer')
+        for _, t in gen.iter_tests(spec):
+            if t.get('fixture'):
+                labels.append('fixture:%s:%s' % (t['fixture'], 'bad' if model.is_bad(t) else 'good'))
         return Outcome(viol, labels, (adj or multi) and bool(case['opts'].get('buffer')))
 
 
